@@ -36,11 +36,13 @@ def gen_cases(tier, seed):
     cases = []
     for i in range(n):
         rng = env.case_rng(ID, i, seed)
-        pspec = workloads.gen_problem(rng, family=FAMILIES[i % len(FAMILIES)], vectorized=False)
+        pspec = workloads.gen_problem(rng, family=FAMILIES[i % len(FAMILIES)], vectorized=False,
+                                      prior=workloads.PRIORS[(i + 1) % len(workloads.PRIORS)])
         cfg = workloads.gen_cfg(rng, pspec, pool='none', n_batch=[16, 100, 50, 4][i % 4], filepath=False)
         cfg['n_eff'] = min(cfg['n_eff'], 400)
         if tier == 'quick':
-            variants = [VARIANTS[(2 * i + k) % len(VARIANTS)] for k in (0, 4)] + [['pool2', 'pool4', 'observed'][i % 3]]
+            variants = [['pool2', 'pool4'][i % 2], ['observed', 'vectorised', 'file', 'again', 'verbose',
+                                                      'sampler_pool_again', 'pool1'][i % 7]]
         else:
             variants = list(VARIANTS)
         cases.append({'i': i, 'seed': seed, 'prob': pspec, 'cfg': cfg, 'variants': sorted(set(variants))})
@@ -75,7 +77,7 @@ class Submissions:
         self.batches.append([float(v).hex() for v in x[:, 0]])
 
 
-def _one_run(spec, variant, scratch):
+def _one_run(spec, variant, scratch, budget=None):
     pspec = dict(spec['prob'])
     cfg = dict(spec['cfg'])
     info = {}
@@ -98,17 +100,22 @@ def _one_run(spec, variant, scratch):
     if 'sidelog' in pspec:
         sub = Submissions(prob)
         monitors.append(sub)
-    s = workloads.make_sampler(prob, cfg, filepath=path, resume=False)
+    s = None
     try:
         kw = workloads.run_kwargs(cfg, n_like_max=int(min(max(120 * cfg['n_batch'], 2500), 12000)),
                                   verbose=(variant == 'verbose'))
         with warnings.catch_warnings(), np.errstate(all='ignore'):
             warnings.simplefilter('ignore')
-            if monitors:
-                with Hooks(monitors):
+            # passive wrappers only count proposals; the budget turns a variant that spins (e.g. because stored
+            # points left the unit cube) into an observable difference instead of a watchdog timeout
+            with Hooks(monitors, proposal_budget=budget) as h:
+                s = workloads.make_sampler(prob, cfg, filepath=path, resume=False)   # pools fork with the wrappers
+                try:
                     ok = s.run(**kw)
-            else:
-                ok = s.run(**kw)
+                except workloads.BudgetExceeded:
+                    return 'budget-exceeded', dict(ok=False, n_like=int(s.n_like), n_bounds=len(s.bounds),
+                                                   proposals=h.proposals)
+            info['proposals'] = h.proposals
             dig = result_digest(s)
         info.update(ok=bool(ok), n_like=int(s.n_like), n_bounds=len(s.bounds))
         if variant == 'observed':
@@ -128,7 +135,8 @@ def _one_run(spec, variant, scratch):
             info.update(batches=len(sub.batches), permuted_batches=permuted, worker_pids=len(pids))
         return dig, info
     finally:
-        workloads.close_sampler(s)
+        if s is not None:
+            workloads.close_sampler(s)
 
 
 def run_case(spec):
@@ -141,7 +149,10 @@ def run_case(spec):
     compared = []
     with env.Scratch('nmon-c11') as scratch:
         try:
-            base, binfo = _one_run(spec, 'base', scratch)
+            base, binfo = _one_run(spec, 'base', scratch, budget=50_000_000)
+            if base == 'budget-exceeded':
+                return {'status': 'skipped', 'reason': 'base run exhausted the proposal budget', 'obs': obs}
+            budget = 20 * binfo['proposals'] + 2_000_000
         except np.linalg.LinAlgError as e:
             return {'status': 'skipped', 'reason': repr(e), 'obs': obs}
         obs['runs'] += 1
@@ -150,10 +161,10 @@ def run_case(spec):
                 continue
             ref, ref_name = base, 'base'
             if v == 'sampler_pool_again':
-                ref, _ = _one_run(spec, 'sampler_pool', scratch)
+                ref, _ = _one_run(spec, 'sampler_pool', scratch, budget=budget)
                 ref_name = 'sampler_pool'
                 obs['runs'] += 1
-            dig, info = _one_run(spec, v, scratch)
+            dig, info = _one_run(spec, v, scratch, budget=budget)
             obs['runs'] += 1
             obs['pairs_compared'] += 1
             counted = True
